@@ -53,7 +53,11 @@ MInit == mc \in MsgSpace
 MNext == UNCHANGED mvars
 MSpec == MInit /\ [][MNext]_mvars
 
-Expected == [mid |-> mc.mid, lines |-> Lines,
+\* the value a function returned is, for its postconditions, a value like the arguments: of a kind that is left out, it is
+\* left out (whether a representable result is listed the property does not say)
+ResultOK == Listed(mc.result)
+
+Expected == [mid |-> mc.mid, lines |-> Lines, result_ok |-> ResultOK,
              trunc |-> [j \in DOMAIN Lines |-> IF Lines[j] \in {"_ARGS", "_KWARGS"} THEN FALSE ELSE Truncated(ArgOf(Lines[j]))],
              strlen |-> [j \in DOMAIN Lines |-> IF Lines[j] \in {"_ARGS", "_KWARGS"} THEN 0
                                                  ELSE IF ArgOf(Lines[j]).kind = "str" THEN ReprStrLen(ArgOf(Lines[j]).size, mc.maxstring) ELSE 0],
